@@ -18,25 +18,46 @@ Theorem mono_mean_is_finite_unit :
   forall a b : f32, unit32 a = true -> unit32 b = true -> unit32 (div32 (add32 a b) two32) = true.
 Proof. exact @mean_unit. Qed.
 
+(** [finite_clamped]: for every binary32 value, NaN and infinities included *)
+Theorem finite_clamped_is_finite_unit :
+  forall x : f32, unit32 (finite_clamped x) = true.
+Proof. exact @finite_clamped_ok. Qed.
+Theorem finite_clamped_is_identity_inside_unit :
+  forall x : f32, unit32 x = true -> finite_clamped x = x.
+Proof. exact @finite_clamped_id. Qed.
+Theorem finite_clamped_nan_and_infinities :
+  finite_clamped B754_nan = zero32 /\
+  finite_clamped (B754_infinity false) = p1_32 /\ finite_clamped (B754_infinity true) = m1_32.
+Proof. exact finite_clamped_special. Qed.
+
+(** unconditional: for EVERY bus frame *)
 Theorem out_stage_samples_finite_unit :
-  forall (n : nat) (l r : f32),
-       isnan32 l = false -> isnan32 r = false -> Forall (fun x : f32 => unit32 x = true) (out_stage n l r).
+  forall (n : nat) (l r : f32), Forall (fun x : f32 => unit32 x = true) (out_stage n l r).
 Proof. exact @out_stage_wellformed. Qed.
 
 Theorem out_stage_channel_layout :
   forall (n : nat) (l r : f32),
-       out_stage 1 l r = [div32 (add32 (clamp_unit l) (clamp_unit r)) two32] /\
-       out_stage (S (S n)) l r = clamp_unit l :: clamp_unit r :: repeat zero32 n.
+       out_stage 1 l r = [div32 (add32 (finite_clamped l) (finite_clamped r)) two32] /\
+       out_stage (S (S n)) l r = finite_clamped l :: finite_clamped r :: repeat zero32 n.
 Proof. exact @out_stage_layout. Qed.
 
 Theorem out_stage_writes_n_samples :
   forall (n : nat) (l r : f32), length (out_stage n l r) = n.
 Proof. exact @out_stage_length. Qed.
 
-Theorem out_stage_nan_refuted :
+Theorem out_stage_unchanged_on_nan_free_bus :
+  forall (n : nat) (l r : f32),
+       isnan32 l = false -> isnan32 r = false -> out_stage n l r = out_stage_old n l r.
+Proof. exact @out_stage_agrees_with_old. Qed.
+
+(** regression: the stage before the repair passed a NaN of the bus on to the device; the repaired
+    stage writes +0 in its place *)
+Theorem out_stage_nan_regression :
   forall r : f32,
-       out_stage 2 B754_nan r = [B754_nan; clamp_unit r] /\ hd zero32 (out_stage 1 B754_nan r) = B754_nan.
-Proof. exact @out_stage_nan_gets_through. Qed.
+       (out_stage_old 2 B754_nan r = [B754_nan; clamp_unit r] /\ hd zero32 (out_stage_old 1 B754_nan r) = B754_nan) /\
+       (out_stage 2 B754_nan r = [zero32; finite_clamped r] /\
+        out_stage 1 B754_nan r = [div32 (add32 zero32 (finite_clamped r)) two32]).
+Proof. exact @out_stage_nan_regression. Qed.
 
 Theorem render_every_frame_once_in_order :
   forall (n b : nat) (bus : list (f32 * f32)),
@@ -49,9 +70,7 @@ Proof. exact @render_length. Qed.
 
 Theorem render_samples_finite_unit :
   forall (n b : nat) (bus : list (f32 * f32)),
-       0 < b ->
-       Forall (fun '(l, r) => isnan32 l = false /\ isnan32 r = false) bus ->
-       Forall (fun x : f32 => unit32 x = true) (render n b bus).
+       0 < b -> Forall (fun x : f32 => unit32 x = true) (render n b bus).
 Proof. exact @render_wellformed. Qed.
 
 Theorem render_chunks_at_most_b :
@@ -85,6 +104,17 @@ Theorem device_buffer_is_out_stage_of_specified_bus :
     map smp (snd (C02.Model.run_chunks O ch (C02.Model.conc_renderer O b res sx) (C02.Model.chunk_sizes b n)))
     = render ch b (map fr (spec_bus O (res, sx) (C02.Model.chunk_sizes b n))).
 Proof. exact device_buffer_is_render. Qed.
+
+(** ... hence, for every mixer configuration of C02's model (any sounds, effects, gains, tree), every
+    sample of the device buffer is a finite number in [-1, 1] *)
+Theorem device_buffer_samples_finite_unit :
+  forall (O : C02.Model.ops) (fr : C02.Model.tF O -> f32 * f32) (smp : C02.Model.tO O -> f32)
+         (ch b n : nat) (res : C02.Model.tI O) (sx : C02.Model.smixer O),
+    1 <= b -> NoDup (map fst (C02.Model.sx_sends O sx)) ->
+    (forall f, map smp (C02.Model.o_out O ch f) = out_stage ch (fst (fr f)) (snd (fr f))) ->
+    Forall (fun x => unit32 x = true)
+           (map smp (snd (C02.Model.run_chunks O ch (C02.Model.conc_renderer O b res sx) (C02.Model.chunk_sizes b n)))).
+Proof. exact device_buffer_wellformed. Qed.
 
 (** * loops_terminate: the carry loops in binary64 *)
 (** `while x >= 1.0 { x -= 1.0; .. }` for a finite 0 <= x <= 2^53: exactly floor(x) iterations, every
